@@ -71,7 +71,7 @@ def main():
 
     def _alarm(signum, frame):
         raise AnalysisTimeout('rule evaluation exceeded %d s' % limit)
-    limit = int(os.environ.get('VERIF_RULE_TIMEOUT_S', '600'))
+    limit = int(os.environ.get('VERIF_RULE_TIMEOUT_S', '300'))
     try:
         signal.signal(signal.SIGALRM, _alarm)
         signal.alarm(limit)
